@@ -268,3 +268,13 @@ def run(chk):
     # ---------------- R7 the candidates are ranked with the current network: what the training loop hands to the trigger
     from .C16 import run_solve_trigger
     run_solve_trigger(chk, "C17.R7")
+
+    # ---------------- R1 (continued) the candidates drawn by the generator's own samplers lie in the generator's own domain
+    for kind in ('ode', 'statio', 'nonstatio'):
+        for d in ((1, 2) if kind != 'ode' else (1,)):
+            def go_dom(kind=kind, d=d):
+                s = setup(kind, d=d, real_samplers='checked')
+                s.step_true()
+                return "candidate times in [tmin, tmax], candidate coordinate j in [min_j, max_j]"
+            chk.run("C17.R1", f"{RAR}:_rar_step_init.rar_step_true (candidate domain)", {"generator": kind, "dim": d}, go_dom,
+                    construct=f"candidate domain[{kind},dim {d}]")
